@@ -25,6 +25,9 @@ def make_spec(d, form):
         {"name": "h", "module": lib, "params": [], "body": [{"k": "read", "var": "V"}]},
         {"name": "K", "module": main, "params": [], "body": [{"k": "call", "fn": "h", "form": form}, {"k": "ext", "fn": "xf"}, {"k": "ext", "var": "XV", "form": "attr"}]},
         {"name": "root", "module": main, "params": [], "body": [{"k": "keep", "path": "/u/k", "fn": "K", "args": []}]},
+        # an accepted kept function that calls the data function of the non-accepted package
+        {"name": "KX", "module": main, "params": [], "body": [{"k": "ext", "fn": "xd"}]},
+        {"name": "rootx", "module": main, "params": [], "body": [{"k": "keep", "path": "/u/kx", "fn": "KX", "args": []}]},
     ]
     ext = {"reexports": [[lib, "h"]] if form == "ext_facade" else [],
            "funcs": [{"name": "xf", "module": "util", "params": [], "body": []},
@@ -32,7 +35,7 @@ def make_spec(d, form):
            "vars": [{"name": "XV", "module": "util", "values": ["1", "2"]}]}
     return {"id": f"ACC/d{d}/{form}", "key": f"depth={d}|form={form}", "modules": [lib, main],
             "vars": [{"name": "V", "module": lib, "values": ["1", "2"]}], "funcs": funcs, "ext": ext,
-            "entries": {"eval_root": {"kind": "eval", "fn": "root"}},
+            "entries": {"eval_root": {"kind": "eval", "fn": "root"}, "eval_rootx": {"kind": "eval", "fn": "rootx"}},
             "eps": [{"id": "tag:h", "kind": "body_tag", "n": 2}, {"id": "V", "kind": "var_value", "n": 2},
                     {"id": "tag:xf", "kind": "ext_body", "n": 2}, {"id": "XV", "kind": "ext_var", "n": 2}]}
 
@@ -104,8 +107,82 @@ def one(world, d, k, n_accept, form, order="plain"):
                 bad("non_accepted_datafn_unnamed", f"the error does not name the module: {str(e)[:160]}")
             if pl.cur:
                 bad("non_accepted_datafn_ran", f"user code ran: {pl.cur}")
+        # the same data function reached from inside an accepted pipeline
+        rx, refx = prog.run("eval_rootx")
+        if rx.status == "ok":
+            bad("non_accepted_datafn_evaluated|nested", f"data function of the non-accepted module called by an accepted kept function was evaluated untracked: {rx.value!r}")
+        else:
+            if rx.status != "dds":
+                bad(f"non_accepted_datafn_error|nested|{rx.exc}", f"called by an accepted kept function: raised {rx.exc}: {str(rx.excobj)[:100]} instead of a DDS error")
+            elif prog.xpkg not in str(rx.excobj):
+                bad("non_accepted_datafn_unnamed|nested", f"the error does not name the module: {str(rx.excobj)[:160]}")
+            if "xd" in rx.log:
+                bad("non_accepted_datafn_ran|nested", f"the data function ran: {rx.log}")
         import dds._api as api
-        api._eval_ctx = None if api._eval_ctx is None else api._eval_ctx
+        if api._eval_ctx is not None:
+            bad("context_leaked", "dds still believes an evaluation is running after the refusal")
+    finally:
+        prog.cleanup()
+    return probs
+
+
+def late(world, d, form):
+    """a module is accepted AFTER an evaluation of the same process has met it as a non-accepted one (notebook flow:
+    run, see the refusal, accept, run again): from then on it is tracked exactly as if it had been accepted from the start"""
+    import dds
+    spec = make_spec(d, form)
+    probs = []
+    case = {"d": d, "k": d, "n": 1, "form": form, "order": "late"}
+    tag = f"depth={d}|late_acceptance"
+
+    def bad(sym, what):
+        probs.append((f"C14|{sym}|{tag}", f"[module depth {d}, only the evaluated module accepted at first, {form}] {what}", case))
+
+    prog = Prog(world, spec, "memory")
+    full = [prog.pkg] + [f"p{i}" for i in range(1, d - 1)]
+    prog.accept_suffix = "." + ".".join((full + ["main"])[1:])
+    libfull = ".".join(full + ["lib"])
+    try:
+        base = S.v0(spec)
+        prog.goto(base, "restart")
+        r1, _ = prog.run("eval_root")
+        if r1.status != "ok":
+            return probs  # reported by the plain configurations
+        xm = importlib.import_module(prog.xpkg + ".util")
+        refused = False
+        try:
+            xm.xd()
+        except BaseException as e:  # noqa
+            refused = core.is_dds_exc(e)
+        # ---- now accept both
+        dds.accept_module(libfull)
+        dds.accept_module(prog.xpkg)
+        prog.extra_accept = prog.extra_accept + [libfull, prog.xpkg]
+        r2, ref2 = prog.run("eval_root")
+        prog.goto(dict(base, **{"tag:h": 1}), "inproc")
+        r3, ref3 = prog.run("eval_root")
+        try:
+            v = xm.xd()
+            if v != "xd#0()":
+                bad("late_datafn_wrong", f"the data function of the module accepted late returned {v!r}")
+        except BaseException as e:  # noqa
+            if refused:
+                bad(f"late_datafn_still_refused|{type(e).__name__}", f"data function still refused after dds.accept_module: {str(e)[:120]}")
+        # ---- twin: accepted from the start
+        prog.persist = None
+        prog.goto(base, "restart")
+        r4, _ = prog.run("eval_root")
+        if r2.status != "ok" or r3.status != "ok" or r4.status != "ok":
+            bad(f"late_refused|{[r.exc for r in (r2, r3, r4) if r.status != 'ok'][0]}", "an evaluation after the late acceptance raised")
+            return probs
+        if r2.sigs.get("/u/k") == r1.sigs.get("/u/k"):
+            bad("late_acceptance_ignored", "accepting the module after a first evaluation did not change the signature: the module is still treated as non-accepted")
+        elif r2.sigs.get("/u/k") != r4.sigs.get("/u/k"):
+            bad("late_acceptance_differs", "the signature after a late acceptance differs from the one obtained when the module is accepted from the start")
+        if r3.sigs.get("/u/k") == r2.sigs.get("/u/k"):
+            bad("late_edit_ignored", "editing a function of the module accepted late did not change the signature")
+        if r3.value != ref3.value:
+            bad("late_edit_stale", f"returned {r3.value!r}, plain execution {ref3.value!r}")
     finally:
         prog.cleanup()
     return probs
@@ -122,6 +199,8 @@ def configs(tier):
                 if k < d and (tier != "quick" or n == 3):
                     for order in ("child_first", "child_last", "pad_first"):
                         out.append((d, k, n, "from", order))
+        for form in (FORMS if tier != "quick" else FORMS[:2]):
+            out.append((d, d, 1, form, "late"))
     return out
 
 
@@ -130,7 +209,7 @@ def _job(items):
     out = []
     for d, k, n, form, order in items:
         try:
-            out.append(one(w, d, k, n, form, order))
+            out.append(late(w, d, form) if order == "late" else one(w, d, k, n, form, order))
         except BaseException as e:  # noqa
             import traceback
             raise core.HarnessError(f"d={d} k={k} n={n} {form} {order}: {type(e).__name__} {e}\n{traceback.format_exc()[-1500:]}")
@@ -149,7 +228,7 @@ def run(tier, seed):
                         rule="module depth 2..6 x accepted prefix at every depth 1..d (prefix = the module itself puts its sibling on the non-accepted side) x "
                              "number of accepted packages (incl. a sibling name sharing a string prefix) x import form x acceptance order (sub-package before / after its parent, padding first); per configuration: 5 variants evaluated "
                              "on empty stores (base, accepted body edit, accepted variable edit, non-accepted body edit, non-accepted variable edit) + "
-                             "a call of a data function of the non-accepted package; distinct_nontrivial = configurations",
+                             "a call of a data function of the non-accepted package; plus, per depth and form, a late acceptance (evaluate, accept the sibling module and the other package, evaluate, edit, compare with a process that accepted them from the start); distinct_nontrivial = configurations",
                         samples=[dict(zip(("depth", "accepted_prefix_depth", "accepted_packages", "import_form", "acceptance_order"), cfg[0])),
                                  dict(zip(("depth", "accepted_prefix_depth", "accepted_packages", "import_form", "acceptance_order"), cfg[-1]))])
     res.assumptions = ["'naming the module' = the message contains the non-accepted package's name", "depth-1 (top-level single-file) modules are not generated"]
@@ -158,4 +237,6 @@ def run(tier, seed):
 
 def replay(case):
     w = J.world()
+    if case.get("order") == "late":
+        return [Violation(P, k, what, case) for k, what, _ in late(w, case["d"], case["form"])]
     return [Violation(P, k, what, case) for k, what, _ in one(w, case["d"], case["k"], case["n"], case["form"], case.get("order", "plain"))]
